@@ -13,20 +13,88 @@ COMPONENTS_LIB = dict(
     stub=[])
 
 _built = {}
+_cfgs = {}
+_collect = None   # when a list: world_exe only records what would be built
+
+
+def _config(backend, shares, flavour):
+    key = (backend, tuple(shares), flavour)
+    if key not in _cfgs:
+        _cfgs[key] = B.Config(backend, shares, flavour).build_lib()
+    return _cfgs[key]
 
 
 def world_exe(world, backend='asm', shares=(4, 2, 4), flavour='rel'):
     """Build (incrementally) the library in the given configuration plus one world binary."""
     key = (world, backend, tuple(shares), flavour)
+    if _collect is not None:
+        _collect.append(key)
+        return os.path.join(B.BUILD, B.cfg_name(backend, shares, flavour), 'w_' + world)
     if key in _built:
         return _built[key]
-    cfg = B.Config(backend, shares, flavour).build_lib()
+    cfg = _config(backend, shares, flavour)
     spec = WORLDS[world]
     exe = spec['build'](cfg) if 'build' in spec else cfg.build_harness(
         world, [os.path.join(W, world + '.cpp')] + spec.get('extra_src', []),
         extra_cflags=spec.get('cflags', []), ldflags=spec.get('ldflags', []))
     _built[key] = exe
     return exe
+
+
+def collect_requests(names, tier):
+    """Walk check functions with the batch runner and verdict step stubbed out; return the builds they need."""
+    global _collect
+    orig_rb, orig_fin, orig_we = D.run_batch, D.Outcome.finish, D.Outcome.write_evidence
+
+    def _stub(exe, n, tier, seed, **k):
+        b = D.Batch()
+        b.exe, b.tier, b.label = exe, tier, k.get('label', 'setup@setup')
+        return b
+    D.run_batch = _stub
+    D.Outcome.finish = lambda self, *a, **k: 0
+    D.Outcome.write_evidence = lambda self, *a, **k: None
+    _collect = []
+    try:
+        for name in names:
+            try:
+                CHECKS[name](tier, D.DEFAULT_SEED)
+            except Exception as e:   # collection must never fail a check or the setup
+                print('prebuild: %s: ignored %s: %s' % (name, type(e).__name__, e))
+        reqs = list(dict.fromkeys(_collect))
+    finally:
+        _collect = None
+        D.run_batch, D.Outcome.finish, D.Outcome.write_evidence = orig_rb, orig_fin, orig_we
+    return reqs
+
+
+def prebuild(reqs):
+    """Build libraries (per configuration) and world binaries in parallel."""
+    from concurrent.futures import ThreadPoolExecutor
+    cfgs = list(dict.fromkeys((be, sh, fl) for w, be, sh, fl in reqs if (be, sh, fl) not in _cfgs))
+    errs = []
+
+    def lib(c):
+        try:
+            _config(*c)
+        except B.BuildError as e:
+            errs.append(e)
+    with ThreadPoolExecutor(4) as ex:
+        list(ex.map(lib, cfgs))
+    if errs:
+        raise errs[0]
+
+    def har(k):
+        try:
+            world_exe(*k)
+        except B.BuildError as e:
+            errs.append(e)   # reported again, properly attributed, when the check asks for this binary
+    with ThreadPoolExecutor(12) as ex:
+        list(ex.map(har, [k for k in reqs if k not in _built]))
+
+
+def run_check(name, tier, seed):
+    prebuild(collect_requests([name], tier))
+    return CHECKS[name](tier, seed)
 
 
 CLI_WRAPS = ['open', 'read', 'write', 'close', 'unlink', 'isatty', 'fopen', 'getrandom', 'ascon_pbkdf2']
@@ -97,30 +165,15 @@ def determinism(world, seed, n):
 
 
 def setup():
-    """Pre-build every configuration the quick checks use (builds are incremental afterwards):
-    each check function is walked with the batch runner and the verdict step stubbed out."""
+    """Pre-build every configuration the quick checks use (builds are incremental afterwards)."""
     t0 = time.time()
-    orig_rb, orig_fin, orig_we = D.run_batch, D.Outcome.finish, D.Outcome.write_evidence
-    def _stub(exe, n, tier, seed, **k):
-        b = D.Batch()
-        b.exe, b.tier, b.label = exe, tier, k.get('label', 'setup@setup')
-        return b
-    D.run_batch = _stub
-    D.Outcome.finish = lambda self, *a, **k: 0
-    D.Outcome.write_evidence = lambda self, *a, **k: None
+    reqs = collect_requests(sorted(CHECKS), 'quick')
+    print('setup: %d world binaries over %d library configurations' % (len(reqs), len({k[1:] for k in reqs})))
+    sys.stdout.flush()
     try:
-        for name in sorted(CHECKS):
-            t1 = time.time()
-            try:
-                CHECKS[name]('quick', D.DEFAULT_SEED)
-            except B.BuildError as e:
-                print('setup: build problem while preparing %s (the check itself will report it): %s' % (name, str(e)[:300]))
-            except Exception as e:   # setup only pre-builds; it must never fail because of a stubbed-out step
-                print('setup: %s: ignored %s: %s' % (name, type(e).__name__, e))
-            print('setup: %s prepared in %.1fs' % (name, time.time() - t1))
-            sys.stdout.flush()
-    finally:
-        D.run_batch, D.Outcome.finish, D.Outcome.write_evidence = orig_rb, orig_fin, orig_we
+        prebuild(reqs)
+    except B.BuildError as e:
+        print('setup: build problem (the checks themselves will report it): %s' % str(e)[:600])
     print('setup done in %.1fs' % (time.time() - t0))
     return 0
 
@@ -568,20 +621,3 @@ CHECKS = {
     'C14': check_C14,
 }
 
-SETUP_BUILDS = [
-    lambda: world_exe('stream'),
-    lambda: world_exe('channel'),
-    lambda: world_exe('prng'),
-    lambda: world_exe('cli'),
-    lambda: world_exe('bytes'),
-    lambda: world_exe('bytes', 'asm', (4, 2, 4), 'nostl'),
-    lambda: world_exe('keystore'),
-    lambda: world_exe('cppobj'),
-    lambda: world_exe('threads', 'c64', (4, 2, 4), 'trace'),
-    lambda: world_exe('threads', 'asm', (4, 2, 4), 'trace'),
-    lambda: world_exe('masked'),
-    lambda: world_exe('masked', 'c64', (3, 3, 3)),
-    lambda: world_exe('masked', 'c32', (2, 1, 2)),
-    lambda: world_exe('masked', 'c64', (4, 4, 4)),
-    lambda: world_exe('masked', 'c32', (4, 3, 4)),
-]
